@@ -1,8 +1,9 @@
 (* C03 — Queued work never stalls and idleness is reported only when truly idle.
-   Statements only; proofs are in Proofs/EngineStall.v (reducer) and Proofs/RunnerIdle.v (runner model). *)
+   Statements only; proofs are in Proofs/EngineStall.v (reducer), Proofs/RunnerIdle.v and
+   Proofs/RunnerStall.v (runner model). *)
 From Coq Require Import List ZArith Bool PeanoNat.
 Import ListNotations.
-From WF Require Import Model.Engine Model.Runner Proofs.EngineCap Proofs.EngineStall Proofs.RunnerIdle.
+From WF Require Import Model.Engine Model.Runner Proofs.EngineCap Proofs.EngineStall Proofs.RunnerIdle Proofs.RunnerStall.
 Open Scope Z_scope.
 
 (* ----- no stall ----- *)
@@ -65,6 +66,15 @@ Theorem C03_unhandled_idle_flag : forall a target s now s' cs ty tg b,
   process_add a target s now = Ok (s', cs) -> In (CPublish (PUnhandled ty tg b)) cs -> b = check_idle s'.
 Proof. exact unhandled_idle_flag. Qed.
 Print Assumptions C03_unhandled_idle_flag.
+
+(* ----- no stall, runner level (Model/Runner.v): for every policy, every start state without a stall (a fresh or a
+   resumed one, see above), every start event and every schedule of worker completions (any result lists, any sends),
+   deliveries and clock advances: while the run is live, the engine state the run loop holds has no stall - a step with
+   queued events has all its worker slots taken ----- *)
+Theorem C03_run_loop_never_stalls : forall P s e now acts,
+  Nostall s -> Runner.outcome (run_at P s e now acts) = ORunning -> Nostall (st (run_at P s e now acts)).
+Proof. exact run_loop_nostall. Qed.
+Print Assumptions C03_run_loop_never_stalls.
 
 (* ----- idleness, runner level (Model/Runner.v): for every policy, start state, start event and
    every schedule of worker completions / deliveries / time steps, no WorkflowIdleEvent is ever
